@@ -153,6 +153,7 @@ class SubCheck:
     machine: Any = None  # optional: factory for a Hypothesis RuleBasedStateMachine (see tqv.machine)
     doc: str = ""
     exhaustive: bool = False
+    fuzz: int = 0  # thorough tier only: additionally run a coverage-guided (atheris/libFuzzer) campaign of this many runs
 
     def get_strategy(self):
         s = self.strategy
